@@ -2,13 +2,22 @@ package main
 
 import (
 	"fmt"
+	"runtime"
 	"strings"
+	"sync"
+	"sync/atomic"
 
 	"google.golang.org/grpc/internal/grpcsync"
 )
 
 // component event (C57, tie T3): threads f<n> = Fire, h<n> = HasFired.
 // Output: `<label|done> fired=<0|1> closed=<0|1> ret=<t|f|-> trues=<Fire calls that returned true> falses=<…false> busy=<calls in flight>`.
+//
+// `cfire <n> <rounds>`: real parallelism instead of a replayed schedule — in every round n goroutines leave a
+// spin barrier together and call Fire() on a fresh Event (no scheduler hook installed). This reaches windows
+// that lie between accesses the source instrumenter cannot separate (inside closures, inside sync primitives).
+// Output: `rounds=<r> bad=<rounds in which the number of true results was not 1> maxtrue=<largest number of true
+// results in a round> unfired=<rounds after which HasFired() was false or Done() not closed>`.
 func init() {
 	register("event", func() Handler {
 		var e *grpcsync.Event
@@ -30,6 +39,56 @@ func init() {
 			return 0
 		}
 		return func(f []string) string {
+			if f[0] == "cfire" && len(f) == 3 {
+				n, rounds := atoi(f[1]), atoi(f[2])
+				if n < 1 || n > 64 || rounds < 1 {
+					return "bad-op"
+				}
+				saved := grpcsync.VerifHook
+				grpcsync.VerifHook = nil
+				defer func() { grpcsync.VerifHook = saved }()
+				if runtime.GOMAXPROCS(0) < 2 {
+					defer runtime.GOMAXPROCS(runtime.GOMAXPROCS(4))
+				}
+				bad, maxTrue, unfired := 0, 0, 0
+				for r := 0; r < rounds; r++ {
+					ev := grpcsync.NewEvent()
+					var ready, trues atomic.Int32
+					var start atomic.Bool
+					var wg sync.WaitGroup
+					for i := 0; i < n; i++ {
+						wg.Add(1)
+						go func() {
+							defer wg.Done()
+							ready.Add(1)
+							// spin rather than block: all workers are on a CPU and leave the barrier within
+							// nanoseconds of each other
+							for !start.Load() {
+							}
+							if ev.Fire() {
+								trues.Add(1)
+							}
+						}()
+					}
+					for ready.Load() != int32(n) {
+						runtime.Gosched()
+					}
+					start.Store(true)
+					wg.Wait()
+					t := int(trues.Load())
+					if t != 1 {
+						bad++
+					}
+					if t > maxTrue {
+						maxTrue = t
+					}
+					fired, closed := ev.VerifState()
+					if !fired || !closed {
+						unfired++
+					}
+				}
+				return fmt.Sprintf("rounds=%d bad=%d maxtrue=%d unfired=%d", rounds, bad, maxTrue, unfired)
+			}
 			if f[0] == "step" && len(f) == 2 && strings.ContainsRune("fh", rune(f[1][0])) {
 				label, ret := s.step(f[1])
 				if f[1][0] == 'f' && ret == "t" {
